@@ -126,6 +126,19 @@ func vGen64(p string) (*Bitmap, *wSet) {
 			inner.Add(lo)
 			s.elems = append(s.elems, uint64(key)<<32|uint64(lo))
 		}
+		if vsym.Param(p+"four") == 1 {
+			// exactly four chunks, one of them a run chunk (the offset-header threshold of the inner format)
+			inner.AddRange(196608+10, 196608+20)
+			for c := uint32(0); c < 3; c++ {
+				lo := c<<16 | uint32(vsym.U16())
+				inner.Add(lo)
+				s.elems = append(s.elems, uint64(key)<<32|uint64(lo))
+			}
+			for v := uint32(196608 + 10); v < 196608+20; v++ {
+				s.elems = append(s.elems, uint64(key)<<32|uint64(v))
+			}
+			inner.RunOptimize()
+		}
 		if vsym.Param(p+"opt") == 1 {
 			inner.RunOptimize()
 		}
